@@ -17,7 +17,7 @@ def fmt(xs):
 def check(path):
     n = 0
     bad = []
-    kinds = {"S": 0, "V": 0, "I": 0}
+    kinds = {"S": 0, "V": 0, "I": 0, "P": 0}
     with open(path) as f:
         for line in f:
             line = line.rstrip("\n")
@@ -35,6 +35,19 @@ def check(path):
                     want = fmt(list(range(ln))[a:b:c])
                 if got != want and len(bad) < 50:
                     bad.append({"signature": "C07/slice-differs-from-python", "witness": {"kind": parts[0], "len": ln, "start": a, "stop": b, "step": c, "python": want, "got": got}})
+            elif parts[0] == "P":
+                form, ln, a, b, c = parts[1], int(parts[2]), p(parts[3]), p(parts[4]), p(parts[5])
+                sel = list(range(ln))[a:b:c]
+                if form == "first":
+                    want = str(sel[0]) if sel else "N"
+                elif form == "last":
+                    want = str(sel[-1]) if sel else "N"
+                elif form == "length":
+                    want = str(len(sel))
+                else:
+                    want = fmt(sel)
+                if got != want and len(bad) < 50:
+                    bad.append({"signature": "C07/slice-in-context-differs-from-python", "witness": {"form": form, "len": ln, "start": a, "stop": b, "step": c, "python": want, "got": got}})
             else:
                 ln, k = int(parts[1]), int(parts[2])
                 xs = list(range(ln))
@@ -47,7 +60,7 @@ def check(path):
 if __name__ == "__main__":
     total = 0
     allbad = []
-    kinds = {"S": 0, "V": 0, "I": 0}
+    kinds = {"S": 0, "V": 0, "I": 0, "P": 0}
     for path in sys.argv[1:]:
         n, k, bad = check(path)
         total += n
